@@ -48,6 +48,10 @@ pub struct Req {
     /// in-dialog only: explicit CSeq (dialog's INVITE CSeq + this) instead of the next one in arrival order
     #[serde(default)]
     pub cseq_offset: Option<u8>,
+    /// the top Via branch lacks the RFC 3261 magic cookie (an RFC 2543 client): the server falls back to
+    /// matching on Call-ID / From-tag / CSeq / top Via (and, for the ACK, the To-tag of the response)
+    #[serde(default)]
+    pub legacy_branch: bool,
 }
 
 #[derive(Serialize, Deserialize, Clone, Debug, Hash)]
@@ -60,6 +64,10 @@ pub struct Case {
     pub invite_layer: bool,
     pub requests: Vec<Req>,
     pub rng: u8,
+    /// answering layers and usages put a To-tag into their responses (what every conforming UAS does);
+    /// the peer copies the To of the response into the ACK it sends for a rejected INVITE
+    #[serde(default)]
+    pub uas_tags: bool,
 }
 
 fn policy_strategy() -> BoxedStrategy<Policy> {
@@ -93,8 +101,9 @@ pub fn strategy() -> BoxedStrategy<Case> {
         ],
         0u8..(METHODS.len() as u8),
         prop_oneof![Just(None), Just(Some(250u64)), Just(Some(700u64)), Just(Some(1800u64))],
+        prop_oneof![3 => Just(false), 1 => Just(true)],
     )
-        .prop_map(|(gap, kind, method, ack_after)| Req { gap, kind, method, ack_after, cseq_offset: None });
+        .prop_map(|(gap, kind, method, ack_after, legacy_branch)| Req { gap, kind, method, ack_after, cseq_offset: None, legacy_branch });
     (
         prop_oneof![3 => Just(false), 1 => Just(true)],
         prop::collection::vec(spec_strategy(), 1..5),
@@ -103,8 +112,9 @@ pub fn strategy() -> BoxedStrategy<Case> {
         any::<bool>(),
         prop::collection::vec(req, 1..5),
         any::<u8>(),
+        any::<bool>(),
     )
-        .prop_map(|(reliable, layers, dialog_layer_pos, usages, invite_layer, requests, rng)| Case {
+        .prop_map(|(reliable, layers, dialog_layer_pos, usages, invite_layer, requests, rng, uas_tags)| Case {
             reliable,
             dialog_layer_pos: dialog_layer_pos.map(|p| p % (layers.len() as u8 + 1)),
             layers,
@@ -112,6 +122,7 @@ pub fn strategy() -> BoxedStrategy<Case> {
             invite_layer,
             requests,
             rng,
+            uas_tags,
         })
         .boxed()
 }
@@ -123,6 +134,7 @@ struct PolicyUsage {
     index: usize,
     rec: Recorder,
     table: BTreeMap<String, Policy>,
+    tag_responses: bool,
 }
 
 #[async_trait::async_trait]
@@ -136,6 +148,7 @@ impl Usage for PolicyUsage {
             index: self.index,
             rec: self.rec.clone(),
             table: self.table.clone(),
+            tag_responses: self.tag_responses,
         };
         layer.receive(endpoint, request).await;
     }
@@ -153,6 +166,7 @@ struct SetupLayer {
     dialog_layer: Arc<Mutex<Option<LayerKey<DialogLayer>>>>,
     usages: Vec<Spec>,
     rec: Recorder,
+    tag_responses: bool,
 }
 
 #[async_trait::async_trait]
@@ -179,6 +193,7 @@ impl Layer for SetupLayer {
                     index: 100 + i,
                     rec: self.rec.clone(),
                     table: table_of(u),
+                    tag_responses: self.tag_responses,
                 });
                 shared.guards.push(g);
             }
@@ -335,11 +350,12 @@ pub fn run(case: &Case) -> Observed {
             dialog_layer: dl_key.clone(),
             usages: case.usages.clone(),
             rec: rec.clone(),
+            tag_responses: case.uas_tags,
         });
         for slot in stack_of(&case) {
             match slot {
                 Slot::Policy(i) => {
-                    b.add_layer(PolicyLayer { index: i, rec: rec.clone(), table: table_of(&case.layers[i]) });
+                    b.add_layer(PolicyLayer { index: i, rec: rec.clone(), table: table_of(&case.layers[i]), tag_responses: case.uas_tags });
                 }
                 Slot::Dialog => {
                     let k = b.add_layer(DialogLayer::default());
@@ -375,14 +391,15 @@ pub fn run(case: &Case) -> Observed {
         let local_tag = shared.lock().local_tag.clone().unwrap_or_else(|| "none".into());
 
         let mut sent: Vec<Sent1> = vec![];
-        let mut events: Vec<(u64, usize, Vec<u8>)> = vec![]; // (time, order, bytes)
+        // (time, order, bytes, for an ACK: branch of the INVITE whose final response supplies the To header)
+        let mut events: Vec<(u64, usize, Vec<u8>, Option<String>)> = vec![];
         let mut t = 5u64;
         let mut dialog_cseq = 10u32;
         for (i, r) in case.requests.iter().enumerate() {
             t += r.gap;
             let marker = format!("q{i}");
             let method = METHODS[r.method as usize % METHODS.len()];
-            let branch = format!("z9hG4bKc08x{i}");
+            let branch = if r.legacy_branch { format!("c08legacy{i}") } else { format!("z9hG4bKc08x{i}") };
             let via = vec![format!("SIP/2.0/UDP 192.0.2.9:5060;branch={branch}")];
             let (bytes, method_s, cseq, is_copy, kind) = match r.kind {
                 Kind::Retransmit(k) if !sent.is_empty() => {
@@ -424,7 +441,9 @@ pub fn run(case: &Case) -> Observed {
                             dialog_cseq += 1;
                             dialog_cseq
                         } else {
-                            dialog_cseq + 1
+                            // never reaches the dialog: any number does; keep it unique per request so that two
+                            // cookie-less requests are not each other's retransmission under RFC 2543 matching
+                            500 + i as u32
                         }
                     } else {
                         7
@@ -450,17 +469,40 @@ pub fn run(case: &Case) -> Observed {
                 (marker, if method_s == "RESPONSE" { format!("z9hG4bKstray{i}") } else { branch })
             };
             let ack_at = if method_s == "INVITE" && !is_copy { r.ack_after.map(|a| t + a) } else { None };
-            events.push((t, events.len(), bytes.clone()));
+            events.push((t, events.len(), bytes.clone(), None));
             if let Some(a) = ack_at {
-                // ACK for a non-2xx: same branch; To-tag irrelevant for transaction matching
-                let ack = request_text("ACK", "sip:uas@10.0.0.1", &[format!("SIP/2.0/UDP 192.0.2.9:5060;branch={branch}")], "<sip:peer@192.0.2.9>;tag=peertag", "<sip:uas@10.0.0.1>;tag=x", "ack", cseq, "ACK", &[format!("X-Seq: ack-{marker}")], b"");
-                events.push((a, events.len(), ack));
+                // ACK for a non-2xx as RFC 3261 17.1.1.3 builds it: Request-URI, top Via, From, Call-ID and CSeq
+                // number of the INVITE; the To header is copied from the response when the ACK goes out
+                let inv = WireMsg::parse(&bytes).expect("own request");
+                let ack = request_text(
+                    "ACK",
+                    "sip:uas@10.0.0.1",
+                    &[format!("SIP/2.0/UDP 192.0.2.9:5060;branch={branch}")],
+                    inv.header("from").unwrap_or(""),
+                    "@TO@",
+                    inv.header("call-id").unwrap_or(""),
+                    cseq,
+                    "ACK",
+                    &[format!("X-Seq: ack-{marker}")],
+                    b"",
+                );
+                events.push((a, events.len(), ack, Some(branch.clone())));
             }
             sent.push(Sent1 { t_ms: t, marker, bytes, branch, cseq, method: method_s, kind, is_copy, ack_at });
         }
         events.sort_by_key(|e| (e.0, e.1));
-        for (t, _, bytes) in events {
+        for (t, _, mut bytes, ack_for) in events {
             clock.until(t).await;
+            if let Some(branch) = ack_for {
+                let to = log
+                    .parsed()
+                    .into_iter()
+                    .filter_map(|(_, m)| m)
+                    .find(|m| !m.is_request() && m.status().unwrap_or(0) >= 200 && m.via_branch().as_deref() == Some(branch.as_str()))
+                    .and_then(|m| m.header("to").map(str::to_string))
+                    .unwrap_or_else(|| "<sip:uas@10.0.0.1>".to_string());
+                bytes = String::from_utf8(bytes).expect("ascii").replace("@TO@", &to).into_bytes();
+            }
             inject(&endpoint, &tp, peer, &bytes);
             settle().await;
         }
@@ -668,8 +710,9 @@ pub fn reordered_cases(_tier: Tier) -> Vec<Case> {
                     dialog_layer_pos: Some(1),
                     usages: vec![],
                     invite_layer: true,
-                    requests: order.iter().map(|o| Req { gap: 1, kind: Kind::InDialog, method, ack_after: None, cseq_offset: Some(*o) }).collect(),
+                    requests: order.iter().map(|o| Req { gap: 1, kind: Kind::InDialog, method, ack_after: None, cseq_offset: Some(*o), legacy_branch: false }).collect(),
                     rng: n,
+                    uas_tags: false,
                 });
             }
         }
